@@ -602,10 +602,13 @@ class Flow:
         if not (is_list or is_dict):
             return None
         sites = []          # (kind, payload, for_stack, cond_stack, temps)
+        def_stack = [None]
 
         def walk(stmts, fors, conds, temps):
             temps = list(temps)
             for s in stmts:
+                if s is defnode.stmt:
+                    def_stack[0] = (tuple(fors), len(conds))
                 if isinstance(s, ast.Assign) and len(s.targets) == 1 and isinstance(s.targets[0], ast.Name) and fors:
                     temps.append((s.targets[0].id, s.value))
                 if isinstance(s, ast.Expr) and isinstance(s.value, ast.Call) and isinstance(s.value.func, ast.Attribute) and \
@@ -627,11 +630,16 @@ class Flow:
                     for h in getattr(s, "handlers", []) or []:
                         walk(h.body, fors + ["?"], conds, temps)
         walk(self.fn.body, [], [], [])
-        if not sites or any(len(f) != 1 or f[0] == "?" for _, _, f, _, _ in sites):
+        if not sites or def_stack[0] is None:
             return None
-        loop = sites[0][2][0]
-        if any(f[0] is not loop for _, _, f, _, _ in sites):
+        outer, ncond = def_stack[0]
+        # the appends sit in exactly one loop below the nesting level at which the container was created
+        if any(len(f) != len(outer) + 1 or f[:len(outer)] != outer or f[-1] == "?" for _, _, f, _, _ in sites):
             return None
+        loop = sites[0][2][-1]
+        if any(f[-1] is not loop for _, _, f, _, _ in sites):
+            return None
+        sites = [(k, c, f, conds[ncond:], tuple(t for t in temps)) for k, c, f, conds, temps in sites]
         ln = self.cfg.by_stmt.get(id(loop))
         if ln is None or ln not in self.cfg.reach(defnode) or (use is not None and use not in self.cfg.reach(ln)):
             return None
